@@ -1,10 +1,10 @@
 (** C08, phase 2: the walk model equals the loop-free closed-form specification,
       aggregate = agg_ref,
-    for day/week resolutions (always) and month/quarter/year resolutions (origin a month end of
-    1970-2100, dates within month_end (q-1) .. month_end (1571-q)). *)
+    for day/week resolutions (always) and month/quarter/year resolutions (origin a month end of any
+    year >= 1, dates after the first q months of year 1: month_end (MINID + q - 1) < d). *)
 From Coq Require Import ZArith List Bool Lia ZifyBool.
 From Bermuda Require Import Model.Base Lib.Calendar Model.Summarize Model.Basis Model.Aggregate
-  Proofs.SummarizeLib Proofs.Summarize Proofs.Aggregate Proofs.AggregateGrid Proofs.AggregateInst.
+  Proofs.SummarizeLib Proofs.Summarize Proofs.CalendarP Proofs.Aggregate Proofs.AggregateGrid Proofs.AggregateInst.
 Import ListNotations.
 Local Open Scope Z_scope.
 
@@ -13,8 +13,8 @@ Local Open Scope Z_scope.
 Definition res_scope (r : resolution) (origin : Z) (dates : list Z) : Prop :=
   match r with
   | RDay q => 1 <= q
-  | RMonth q => month_origin_ok origin q /\ q <= 786 /\
-                forall d, In d dates -> month_end (q - 1) < d <= month_end (1571 - q)
+  | RMonth q => month_origin_ok origin q /\
+                forall d, In d dates -> month_end (MINID + q - 1) < d
   end.
 (* ... which yields a grid covering the dates *)
 Definition covered (r : resolution) (origin : Z) (dates : list Z) : Prop :=
@@ -26,8 +26,16 @@ Proof. intros (G & klo & khi & kidx & OK & H) Hs. exists G, klo, khi, kidx. spli
 Lemma res_scope_covered r origin dates : res_scope r origin dates -> covered r origin dates.
 Proof.
   destruct r as [q|q]; cbn [res_scope].
-  - intros (Hok & Hq & Hd). exists (month_G origin q), (month_klo origin q), (month_khi origin q), (month_kidx origin q).
-    split; [now apply month_grid_ok|]. intros d Hin. apply month_range_sufficient; auto.
+  - intros (Hok & Hd). set (B := 1 + zmax_list 0 (map (fun d => Z.abs (d - origin)) dates)).
+    assert (HB : forall d, In d dates -> Z.abs (d - origin) < B).
+    { intros d Hin. pose proof (proj2 (zmax_list_spec (map (fun d => Z.abs (d - origin)) dates) 0) (Z.abs (d - origin))) as H.
+      specialize (H ltac:(apply in_map_iff; eauto)). unfold B. lia. }
+    assert (HBpos : 0 < B) by (pose proof (proj1 (zmax_list_spec (map (fun d => Z.abs (d - origin)) dates) 0)); unfold B; lia).
+    pose proof (month_grid_ok origin q Hok B HBpos) as OK.
+    exists (month_G origin q), (month_klo origin q), B, (month_kidx origin q). split; [exact OK|].
+    intros d Hin. split; [apply month_range_lower; auto|].
+    pose proof (G_gap' _ _ _ (g_mono _ _ _ _ _ _ OK) 0 B (g_lo _ _ _ _ _ _ OK) ltac:(lia) ltac:(lia)) as Hg.
+    rewrite (g_origin _ _ _ _ _ _ OK) in Hg. specialize (HB d Hin). lia.
   - intros Hq. set (B := 1 + zmax_list 0 (map (fun d => Z.abs (d - origin)) dates)).
     assert (HB : forall d, In d dates -> Z.abs (d - origin) < B).
     { intros d Hd. pose proof (proj2 (zmax_list_spec (map (fun d => Z.abs (d - origin)) dates) 0) (Z.abs (d - origin))) as H.
